@@ -91,6 +91,18 @@ func (s *Solver) start() {
 	s.send("(set-option :global-declarations true)\n(set-option :timeout " + strconv.Itoa(s.timeout) + ")\n")
 }
 
+// Reset clears all solver state so that the process can serve the next work item.
+func (s *Solver) Reset() {
+	if s.dead || s.cmd == nil {
+		s.restart()
+		return
+	}
+	s.em = NewEmitter()
+	s.stack = nil
+	s.Stats = SolverStats{Winners: map[string]int{}}
+	s.send("(reset)\n(set-option :global-declarations true)\n(set-option :timeout " + strconv.Itoa(s.timeout) + ")\n")
+}
+
 func (s *Solver) Close() {
 	if s.cmd != nil && s.cmd.Process != nil {
 		s.in.Close()
